@@ -61,6 +61,17 @@ CHECKS.update({
    text="TLC proves BindOK/AfterEvolve/SysUnique for all bounded histories under GslContract and exhibits the stale-cache counterexample without it (a latent hazard, monitored); seeded random histories over Evolve/toggle/AnyNumerics/stepper change/move-construct/move-assign/re-initialise are recorded through hooks and every event validated (bindings, clock exactness, bit-identical state and single PreDerive when all terms are off, view = state after Evolve); segment histories are compared with the exact flow and the clock.",
    note="GslContract is an environment assumption checked on each trace (failure = inconclusive, not a violation)."),
 })
+CHECKS.update({
+ "C07": dict(cat="model_checking", sec="5/C07", tech="TLA+ ExpFamilies (exact exponentials of diagonal / normal / nilpotent / xI+N families in Q(zeta8)[2^m], thread-local scratch state as history); TLC checks exp laws and history independence; every exported call sequence replayed on matrix_exponential and UTransform",
+   text="TLC builds families with exactly known exponentials spanning every branch of the algorithm (diagonal shortcut, Pade 3,5,7,9,13 with and without scaling, norms up to ~1e3), checks exp(A)exp(-A)=I, exp(A)^2=exp(2A), unitarity, and that the result is a function of A only over call sequences that resize the thread-local scratch; each sequence runs on a fresh thread of the real code and is compared with the exact value (1e3 n eps max(1,|A|)|e^A|); a branch never exercised fails the check as vacuous.",
+   note="Accuracy on general dense matrices outside the exact families is not decided (conditioning-dependent)."),
+ "C12": dict(cat="model_checking", sec="5/C12", tech="TLA+ Eigen (structured families with exactly known spectra, all degeneracy patterns, dense conjugates, near-degenerate family); exported cases replayed on GetEigenSystem with residual checks",
+   text="TLC generates (U,D) pairs with M = U D U^dagger exact: integer diagonals over all set partitions (every degeneracy pattern), projectors, multiples of I, generators, dense conjugates by pi/4 and pi/2 rotations, Z[sqrt2] spectra and a near-degenerate family; GetEigenSystem(ordered/unordered) must return finite numbers, the exact spectrum (1e-10 |M|), ascending when ordered, and eigenvectors with small residual and unitarity defect.",
+   note="Eigenvector validity is a floating-point residual computed by the harness (eigenvectors are not unique); generic dense inputs are checked by residual only."),
+ "C18": dict(cat="model_checking", sec="5/C18", tech="TLA+ Threads (per-thread caches, shared heap, hand-over channel, thread exit) model checked over all interleavings; linearised traces of real threads validated by ThreadsTrace; results compared with the single-thread run; ThreadSanitizer build of the same programs",
+   text="TLC checks RaceFree, HeapSoundT and NoBlockInDeadCache on every interleaving of 2-3 threads (and shows the violation when a dead thread's cache is not drained); real runs with 2-8 threads doing algebra, matrix exponentials, cross-thread hand-over and const queries on a shared solver are validated event by event, every result is compared with the sequential execution of the same programs (bit-identical except matrix exponentials), nothing may remain in an ended thread's cache, and a TSan build that records nothing must be silent.",
+   note="Race freedom of the real executions is observed by ThreadSanitizer on the executed schedules; libgsl is not instrumented."),
+})
 NA = {}
 def main():
     checks = []
